@@ -296,3 +296,17 @@ _gen_c11 = generate
 def generate(ctx):   # + Relic.Generated.CompressHttp (Relic.Props.C11.generated_buffering_eq)
     return _gen_c11(ctx) + _chttp.generate(ctx)
 import cosign as _thin; _thin.wrap(globals(), "C11")  # COSIGN / CAT ops (checklib/models/cosign.py)
+
+
+# --- SCD ops (hostile / broken scdaemon output against lib/assuan + token/scdtoken; parseCsExp; percent-escaping): a further
+# correspondence under the pseudo-property C11SCD, checklib/models/scd.py; theorems Relic.Props.C11.assuan_read_no_panic,
+# csexp_parse_total, transact_escape_roundtrip, scd_client_panics_only_in_getkey
+import composite as _composite, scd as _scd
+UNPROVED = UNPROVED + _scd.UNPROVED["C11"]
+_run_c11_scd = run
+
+
+def run(ctx):
+    own, none = _composite.split_replay(ctx, ["scd"])
+    cov, f, k = ({"evaluations": 0, "distinct_nontrivial": 0}, [], []) if none else _run_c11_scd(own)
+    return _scd.second(ctx, "C11", cov, f, k)
